@@ -20,14 +20,25 @@
     `C12_glue_current_tree` states whichever applies to the tree in /repo now.
   * `timestamp_placement_counterexample` — F13: the optional `timestamp` where the schema puts it (on
     `Request`) makes the glue fail with KeyError; on `KSR` (where the schema does not allow it) it is read.
-  * `C12_order` — sorting request bundles by expiration gives the same list for every permutation of
-    the input when expirations are pairwise distinct; `C12_order_bundles` lifts this through the glue;
-    `C12_order_tie_counterexample` — F8: with equal expirations document order shows through.
-  * `C12_reader_*` — reader correctness against `PlainXml` (see the section at the end for what is
-    proved and what is still open).
+  * `C12_order_key` — sorting bundles by `(expiration, inception, id)` (the repaired glue, requests AND
+    responses) gives the same list for every permutation of the input whenever bundle ids are pairwise
+    distinct; `C12_order` — the pinned request glue (stable sort by expiration only) does so only when
+    expirations are pairwise distinct; `C12_order_bundles` / `C12_order_response_bundles` lift both
+    through the glue, for either value of the switches tabulated from the code;
+    `C12_order_tie_counterexample` — F8: with the pinned glue and equal expirations document order shows
+    through; `C12_order_key_tie` — what remains with the repaired glue: only bundles that agree in
+    expiration, inception AND id can still swap.
+  * `C12_reader_partial` — reader correctness against `PlainXml`: for every plain tree of any size and
+    at most five levels of nesting, `parse (render t) = dictOf t`, where the rendering may use ANY white
+    space between elements (none, spaces, tabs, newlines, CR LF, indentation), any white space before
+    the closing `>` / `/>` of a start tag that has attributes, the self-closing or the empty-pair form for
+    empty elements, and any white space around the document; `C12_reader_ksr` adds what precedes `<KSR`.
+    Still fixed by the rendering (see the section at the end): one space before each attribute, the
+    attributes in the order given.
 -/
 import Kskm.XmlGlue
 import KskmProofs.Lemmas.XmlStore
+import KskmProofs.Lemmas.XmlReader
 namespace Kskm.C12
 open Kskm.Xml
 
@@ -114,24 +125,29 @@ def signerDict (kid : String) : XVal :=
 
 /-- **F11.** With the pinned glue exactly one Signer is a TypeError (the loop runs over the KEYS of the
     single dict), while 0 and 2 signers load. -/
-theorem C12_glue_signers_counterexample (b : Bool) :
-    signersOf ⟨false, b⟩ (repeated [signerDict "KC1"]) = err .type ∧
-    signersOf ⟨false, b⟩ (.list []) = .ok none ∧
-    signersOf ⟨false, b⟩ (repeated [signerDict "KC1", signerDict "KC2"]) = .ok (some [some "KC1", some "KC2"]) ∧
-    signersOf ⟨true, b⟩ (repeated [signerDict "KC1"]) = .ok (some [some "KC1"]) := by
-  cases b <;> decide
+theorem C12_glue_signers_counterexample (gs : GlueSwitches) (hgs : gs.wrapsSingleSigner = false) :
+    signersOf gs (repeated [signerDict "KC1"]) = err .type ∧
+    signersOf gs (.list []) = .ok none ∧
+    signersOf gs (repeated [signerDict "KC1", signerDict "KC2"]) = .ok (some [some "KC1", some "KC2"]) ∧
+    signersOf { gs with wrapsSingleSigner := true } (repeated [signerDict "KC1"]) = .ok (some [some "KC1"]) := by
+  obtain ⟨a, b, c, d⟩ := gs
+  simp only at hgs
+  subst hgs
+  cases b <;> cases c <;> cases d <;> decide
 
 /-- **ResponseBundle**, repaired glue: every repetition count ≥ 1. -/
 theorem C12_glue_response_bundles (gs : GlueSwitches) (hgs : gs.wrapsSingleResponseBundle = true)
     (vs : List XVal) (hne : vs ≠ []) (hnl : ∀ v ∈ vs, v.isList = false) :
-    responseBundlesOf gs (repeated vs) = vs.mapM responseBundleOf := by
+    responseBundlesOf gs (repeated vs) =
+      (do let l ← vs.mapM responseBundleOf; pure (if gs.sortsResponseBundles then sortByKey l else l)) := by
   unfold responseBundlesOf
   simp only [hgs, ↓reduceIte, asList_repeated vs hne hnl]
 
 /-- **F12.** With the pinned glue exactly one ResponseBundle is a TypeError, whatever it contains. -/
-theorem C12_glue_response_bundles_counterexample (a : Bool) (attrs value : XVal) :
-    responseBundlesOf ⟨a, false⟩ (repeated [.dict [(kAttrs, attrs), (kValue, value)]]) = err .type := by
-  simp [responseBundlesOf, repeated, XVal.iter, List.mapM_cons, responseBundleOf, XVal.getItem, bind,
+theorem C12_glue_response_bundles_counterexample (gs : GlueSwitches)
+    (hgs : gs.wrapsSingleResponseBundle = false) (attrs value : XVal) :
+    responseBundlesOf gs (repeated [.dict [(kAttrs, attrs), (kValue, value)]]) = err .type := by
+  simp [responseBundlesOf, hgs, repeated, XVal.iter, List.mapM_cons, responseBundleOf, XVal.getItem, bind,
     Except.bind, err]
 
 /-- The tree in /repo now: for each of the two switches tabulated from the code, the statement that
@@ -143,7 +159,9 @@ theorem C12_glue_current_tree :
       else signersOf pyGlueSwitches (repeated [signerDict "KC1"]) = err .type) ∧
     (if KskmGen.wrapsSingleResponseBundle = true then
         ∀ vs, vs ≠ [] → (∀ v ∈ vs, v.isList = false) →
-          responseBundlesOf pyGlueSwitches (repeated vs) = vs.mapM responseBundleOf
+          responseBundlesOf pyGlueSwitches (repeated vs) =
+            (do let l ← vs.mapM responseBundleOf
+                pure (if pyGlueSwitches.sortsResponseBundles then sortByKey l else l))
       else ∀ attrs value,
         responseBundlesOf pyGlueSwitches (repeated [.dict [(kAttrs, attrs), (kValue, value)]]) = err .type) := by
   constructor
@@ -153,20 +171,14 @@ theorem C12_glue_current_tree :
       exact fun vs h1 h2 h3 => C12_glue_signers pyGlueSwitches h vs h1 h2 h3
     | false =>
       simp only [Bool.false_eq_true, ↓reduceIte]
-      have : pyGlueSwitches = ⟨false, KskmGen.wrapsSingleResponseBundle⟩ := by
-        simp [pyGlueSwitches, h]
-      rw [this]
-      exact (C12_glue_signers_counterexample _).1
+      exact (C12_glue_signers_counterexample pyGlueSwitches h).1
   · cases h : KskmGen.wrapsSingleResponseBundle with
     | true =>
       simp only [↓reduceIte]
       exact fun vs h1 h2 => C12_glue_response_bundles pyGlueSwitches h vs h1 h2
     | false =>
       simp only [Bool.false_eq_true, ↓reduceIte]
-      have : pyGlueSwitches = ⟨KskmGen.wrapsSingleSigner, false⟩ := by
-        simp [pyGlueSwitches, h]
-      rw [this]
-      exact fun attrs value => C12_glue_response_bundles_counterexample _ attrs value
+      exact fun attrs value => C12_glue_response_bundles_counterexample pyGlueSwitches h attrs value
 
 /-! ### F13: where the optional `timestamp` is looked for -/
 
@@ -199,10 +211,11 @@ theorem timestamp_placement_counterexample (gs : GlueSwitches) :
     (requestFromDict gs (ksrDict (some "2018-01-01T00:00:00Z") none)).map (·.timestamp) =
       .ok (some 1514764800000000) ∧
     (requestFromDict gs (ksrDict none none)).map (·.timestamp) = .ok none := by
-  obtain ⟨a, b⟩ := gs
-  cases a <;> cases b <;> exact ⟨by decide +kernel, by decide +kernel, by decide +kernel⟩
+  obtain ⟨a, b, c, d⟩ := gs
+  cases a <;> cases b <;> cases c <;> cases d <;>
+    exact ⟨by decide +kernel, by decide +kernel, by decide +kernel⟩
 
-/-! ## 3. Order of request bundles -/
+/-! ## 3. Order of bundles -/
 
 theorem eq_of_mem_pairwise_ne {l : List Bundle}
     (hd : l.Pairwise (fun a b => a.expiration ≠ b.expiration)) :
@@ -292,33 +305,171 @@ theorem mapM_perm {α β} (f : α → Res β) {l₁ l₂ : List α} (hp : l₁.P
     obtain ⟨r₃, h3, hp3⟩ := ih2 r₂ h2
     exact ⟨r₃, h3, hp2.trans hp3⟩
 
-/-- **Order independence through the glue.** If a list of bundle dicts loads, every permutation of it
-    loads too, and to the same bundle list when the expirations are pairwise distinct. -/
+/-! ### the repaired glue: sort key (expiration, inception, id) -/
+
+theorem bundleKeyLe_iff (a b : Bundle) : bundleKeyLe a b = true ↔
+    a.expiration < b.expiration ∨ (a.expiration = b.expiration ∧
+      (a.inception < b.inception ∨ (a.inception = b.inception ∧ a.id ≤ b.id))) := by
+  simp [bundleKeyLe]
+
+theorem bundleKeyLe_total (a b : Bundle) : (bundleKeyLe a b || bundleKeyLe b a) = true := by
+  simp only [Bool.or_eq_true, bundleKeyLe_iff]
+  rcases Int.lt_trichotomy a.expiration b.expiration with h | h | h
+  · exact Or.inl (Or.inl h)
+  · rcases Int.lt_trichotomy a.inception b.inception with h' | h' | h'
+    · exact Or.inl (Or.inr ⟨h, Or.inl h'⟩)
+    · rcases String.le_total a.id b.id with hi | hi
+      · exact Or.inl (Or.inr ⟨h, Or.inr ⟨h', hi⟩⟩)
+      · exact Or.inr (Or.inr ⟨h.symm, Or.inr ⟨h'.symm, hi⟩⟩)
+    · exact Or.inr (Or.inr ⟨h.symm, Or.inl h'⟩)
+  · exact Or.inr (Or.inl h)
+
+theorem bundleKeyLe_trans (a b c : Bundle) (h1 : bundleKeyLe a b = true) (h2 : bundleKeyLe b c = true) :
+    bundleKeyLe a c = true := by
+  rw [bundleKeyLe_iff] at *
+  rcases h1 with h1 | ⟨e1, h1⟩
+  · rcases h2 with h2 | ⟨e2, _⟩
+    · exact Or.inl (by omega)
+    · exact Or.inl (by omega)
+  · rcases h2 with h2 | ⟨e2, h2⟩
+    · exact Or.inl (by omega)
+    · refine Or.inr ⟨by omega, ?_⟩
+      rcases h1 with h1 | ⟨i1, h1⟩
+      · rcases h2 with h2 | ⟨i2, _⟩
+        · exact Or.inl (by omega)
+        · exact Or.inl (by omega)
+      · rcases h2 with h2 | ⟨i2, h2⟩
+        · exact Or.inl (by omega)
+        · exact Or.inr ⟨by omega, String.le_trans h1 h2⟩
+
+/-- the order is antisymmetric on the key: both ways round means equal (expiration, inception, id) -/
+theorem bundleKeyLe_antisymm (a b : Bundle) (h1 : bundleKeyLe a b = true) (h2 : bundleKeyLe b a = true) :
+    a.expiration = b.expiration ∧ a.inception = b.inception ∧ a.id = b.id := by
+  rw [bundleKeyLe_iff] at *
+  rcases h1 with h1 | ⟨e1, h1⟩
+  · rcases h2 with h2 | ⟨e2, _⟩ <;> omega
+  · rcases h2 with h2 | ⟨_, h2⟩
+    · omega
+    · rcases h1 with h1 | ⟨i1, h1⟩
+      · rcases h2 with h2 | ⟨i2, _⟩ <;> omega
+      · rcases h2 with h2 | ⟨_, h2⟩
+        · omega
+        · exact ⟨e1, i1, String.le_antisymm h1 h2⟩
+
+theorem eq_of_mem_pairwise_id {l : List Bundle} (hd : l.Pairwise (fun a b => a.id ≠ b.id)) :
+    ∀ a ∈ l, ∀ b ∈ l, a.id = b.id → a = b := by
+  induction l with
+  | nil => intro a ha; simp at ha
+  | cons x r ih =>
+    rw [List.pairwise_cons] at hd
+    intro a ha b hb he
+    rcases List.mem_cons.mp ha with rfl | ha' <;> rcases List.mem_cons.mp hb with rfl | hb'
+    · rfl
+    · exact absurd he (hd.1 b hb')
+    · exact absurd he.symm (hd.1 a ha')
+    · exact ih hd.2 a ha' b hb' he
+
+/-- **C12_order, repaired glue.** Sorting by (expiration, inception, id) yields the same list for
+    every permutation of the input whenever the bundle ids are pairwise distinct — equal expirations,
+    equal inceptions included. -/
+theorem C12_order_key (l₁ l₂ : List Bundle) (hp : l₁.Perm l₂)
+    (hd : l₁.Pairwise (fun a b => a.id ≠ b.id)) : sortByKey l₁ = sortByKey l₂ := by
+  unfold sortByKey
+  apply List.Perm.eq_of_pairwise (le := fun a b => bundleKeyLe a b = true)
+  · intro a b ha hb h1 h2
+    have ha' : a ∈ l₁ := (List.mergeSort_perm l₁ _).mem_iff.mp ha
+    have hb' : b ∈ l₁ := hp.mem_iff.mpr ((List.mergeSort_perm l₂ _).mem_iff.mp hb)
+    exact eq_of_mem_pairwise_id hd a ha' b hb' (bundleKeyLe_antisymm a b h1 h2).2.2
+  · exact List.pairwise_mergeSort bundleKeyLe_trans bundleKeyLe_total l₁
+  · exact List.pairwise_mergeSort bundleKeyLe_trans bundleKeyLe_total l₂
+  · exact (List.mergeSort_perm l₁ _).trans (hp.trans (List.mergeSort_perm l₂ _).symm)
+
+/-- the result is ascending in the key — in particular chronological — and a permutation of the input -/
+theorem sortByKey_sorted (l : List Bundle) :
+    (sortByKey l).Pairwise (fun a b => bundleKeyLe a b = true) ∧
+    (sortByKey l).Pairwise (fun a b => a.expiration ≤ b.expiration) ∧ (sortByKey l).Perm l := by
+  have h := List.pairwise_mergeSort bundleKeyLe_trans bundleKeyLe_total l
+  refine ⟨h, h.imp ?_, List.mergeSort_perm l _⟩
+  intro a b hab
+  rw [bundleKeyLe_iff] at hab
+  omega
+
+/-- **Order independence through the request glue**, for either value of the switch: if a list of
+    bundle dicts loads, every permutation of it loads too, to a permutation of the same bundles, and to
+    the very same list when — repaired glue — the bundle ids are pairwise distinct, or — pinned glue —
+    the expirations are. -/
 theorem C12_order_bundles (gs : GlueSwitches) (bs₁ bs₂ : List XVal) (hp : bs₁.Perm bs₂) (r₁ : List Bundle)
     (h : requestBundlesOf gs bs₁ = .ok r₁) :
     ∃ r₂, requestBundlesOf gs bs₂ = .ok r₂ ∧ r₁.Perm r₂ ∧
-      (r₁.Pairwise (fun a b => a.expiration ≠ b.expiration) → r₂ = r₁) := by
+      ((if gs.sortsRequestBundlesByTriple then r₁.Pairwise (fun a b => a.id ≠ b.id)
+        else r₁.Pairwise (fun a b => a.expiration ≠ b.expiration)) → r₂ = r₁) := by
   unfold requestBundlesOf at h ⊢
   cases hm : bs₁.mapM (requestBundleOf gs) with
   | error e => simp [hm, bind, Except.bind] at h
   | ok l₁ =>
     simp only [hm, bind, Except.bind, pure, Except.pure, Except.ok.injEq] at h
     obtain ⟨l₂, h2, hp2⟩ := mapM_perm (requestBundleOf gs) hp l₁ hm
-    refine ⟨sortByExpiration l₂, by simp [h2, bind, Except.bind, pure, Except.pure], ?_, ?_⟩
-    · rw [← h]
-      exact (sortByExpiration_sorted l₁).2.trans (hp2.trans (sortByExpiration_sorted l₂).2.symm)
-    · intro hd
-      rw [← h] at hd ⊢
-      have hd1 : l₁.Pairwise (fun a b => a.expiration ≠ b.expiration) :=
-        ((sortByExpiration_sorted l₁).2.pairwise_iff (fun h => fun h' => h h'.symm)).mp hd
-      exact (C12_order l₁ l₂ hp2 hd1).symm
+    cases hsw : gs.sortsRequestBundlesByTriple with
+    | true =>
+      simp only [hsw, ↓reduceIte] at h ⊢
+      refine ⟨sortByKey l₂, by simp [h2, bind, Except.bind, pure, Except.pure], ?_, ?_⟩
+      · rw [← h]
+        exact (sortByKey_sorted l₁).2.2.trans (hp2.trans (sortByKey_sorted l₂).2.2.symm)
+      · intro hd
+        rw [← h] at hd ⊢
+        have hd1 : l₁.Pairwise (fun a b => a.id ≠ b.id) :=
+          ((sortByKey_sorted l₁).2.2.pairwise_iff (fun h => fun h' => h h'.symm)).mp hd
+        exact (C12_order_key l₁ l₂ hp2 hd1).symm
+    | false =>
+      simp only [hsw, Bool.false_eq_true, ↓reduceIte] at h ⊢
+      refine ⟨sortByExpiration l₂, by simp [h2, bind, Except.bind, pure, Except.pure], ?_, ?_⟩
+      · rw [← h]
+        exact (sortByExpiration_sorted l₁).2.trans (hp2.trans (sortByExpiration_sorted l₂).2.symm)
+      · intro hd
+        rw [← h] at hd ⊢
+        have hd1 : l₁.Pairwise (fun a b => a.expiration ≠ b.expiration) :=
+          ((sortByExpiration_sorted l₁).2.pairwise_iff (fun h => fun h' => h h'.symm)).mp hd
+        exact (C12_order l₁ l₂ hp2 hd1).symm
+
+/-- **Order independence through the response glue** (repaired: sorted like requests): every
+    permutation of the `ResponseBundle` occurrences loads to the same list when ids are pairwise distinct.
+    With the pinned glue (`sortsResponseBundles = false`) the result is just the permuted list. -/
+theorem C12_order_response_bundles (gs : GlueSwitches) (hw : gs.wrapsSingleResponseBundle = true)
+    (vs₁ vs₂ : List XVal) (hp : vs₁.Perm vs₂) (r₁ : List Bundle)
+    (h : responseBundlesOf gs (.list vs₁) = .ok r₁) :
+    ∃ r₂, responseBundlesOf gs (.list vs₂) = .ok r₂ ∧ r₁.Perm r₂ ∧
+      (gs.sortsResponseBundles = true → r₁.Pairwise (fun a b => a.id ≠ b.id) → r₂ = r₁) := by
+  unfold responseBundlesOf at h ⊢
+  simp only [hw, ↓reduceIte, XVal.asList] at h ⊢
+  cases hm : vs₁.mapM responseBundleOf with
+  | error e => simp [hm, bind, Except.bind] at h
+  | ok l₁ =>
+    simp only [hm, bind, Except.bind, pure, Except.pure, Except.ok.injEq] at h
+    obtain ⟨l₂, h2, hp2⟩ := mapM_perm responseBundleOf hp l₁ hm
+    cases hsw : gs.sortsResponseBundles with
+    | true =>
+      simp only [hsw, ↓reduceIte] at h ⊢
+      refine ⟨sortByKey l₂, by simp [h2, bind, Except.bind, pure, Except.pure], ?_, ?_⟩
+      · rw [← h]
+        exact (sortByKey_sorted l₁).2.2.trans (hp2.trans (sortByKey_sorted l₂).2.2.symm)
+      · intro _ hd
+        rw [← h] at hd ⊢
+        have hd1 : l₁.Pairwise (fun a b => a.id ≠ b.id) :=
+          ((sortByKey_sorted l₁).2.2.pairwise_iff (fun h => fun h' => h h'.symm)).mp hd
+        exact (C12_order_key l₁ l₂ hp2 hd1).symm
+    | false =>
+      simp only [hsw, Bool.false_eq_true, ↓reduceIte] at h ⊢
+      refine ⟨l₂, by simp [h2, bind, Except.bind, pure, Except.pure], ?_, ?_⟩
+      · rw [← h]; exact hp2
+      · intro hc; cases hc
 
 /-- two bundles that differ only in their id -/
 def tieA : Bundle := { id := "a", inception := 0, expiration := 10, keys := [], signatures := [] }
 def tieB : Bundle := { id := "b", inception := 0, expiration := 10, keys := [], signatures := [] }
 
-/-- **F8.** With equal expirations the sort is stable: document order shows through, so the result
-    does depend on the order of the bundles in the file. -/
+/-- **F8.** With the pinned glue and equal expirations the sort is stable: document order shows
+    through, so the result does depend on the order of the bundles in the file — while the repaired
+    key sorts the same two bundles the same way whichever comes first. -/
 theorem C12_order_tie_counterexample :
     sortByExpiration [tieA, tieB] = [tieA, tieB] ∧ sortByExpiration [tieB, tieA] = [tieB, tieA] ∧
     sortByExpiration [tieA, tieB] ≠ sortByExpiration [tieB, tieA] := by
@@ -330,7 +481,167 @@ theorem C12_order_tie_counterexample :
   rw [h1, h2]
   decide
 
+theorem C12_order_tie_repaired : sortByKey [tieA, tieB] = sortByKey [tieB, tieA] :=
+  C12_order_key _ _ (List.Perm.swap _ _ _) (by decide)
+
+/-- two bundles that agree in expiration, inception and id but not in content -/
+def dupA : Bundle := { id := "a", inception := 0, expiration := 10, keys := [], signatures := [] }
+def dupB : Bundle := { id := "a", inception := 0, expiration := 10, keys := [], signatures := [], signers := some [] }
+
+/-- What remains with the repaired glue: bundles with equal (expiration, inception, id) — which
+    `check_unique_ids` refuses afterwards — still come out in document order. -/
+theorem C12_order_key_tie :
+    sortByKey [dupA, dupB] = [dupA, dupB] ∧ sortByKey [dupB, dupA] = [dupB, dupA] ∧ dupA ≠ dupB :=
+  ⟨List.mergeSort_of_pairwise (by decide), List.mergeSort_of_pairwise (by decide), by decide⟩
+
+/-- the tree in /repo now, per switch tabulated from the code -/
+theorem C12_order_current_tree (l₁ l₂ : List Bundle) (hp : l₁.Perm l₂) :
+    (if KskmGen.sortsRequestBundlesByTriple = true then
+        l₁.Pairwise (fun a b => a.id ≠ b.id) → sortByKey l₁ = sortByKey l₂
+      else l₁.Pairwise (fun a b => a.expiration ≠ b.expiration) → sortByExpiration l₁ = sortByExpiration l₂) := by
+  cases KskmGen.sortsRequestBundlesByTriple with
+  | true => simp only [↓reduceIte]; exact C12_order_key l₁ l₂ hp
+  | false => simp only [Bool.false_eq_true, ↓reduceIte]; exact C12_order l₁ l₂ hp
+
+/-! ## 4. The reader against PlainXml -/
+
+/-- the character classes of the running Python meet every requirement of the reader theorems -/
+theorem pyClasses_sane : Sane pyClasses where
+  word_not_space := by
+    intro c hw
+    cases hsp : pyClasses.isSpace c with
+    | false => rfl
+    | true => exact absurd ⟨hw, hsp⟩ (inRanges_disjoint _ _ (by decide +kernel) c)
+  word_not_strip := by
+    intro c hw
+    cases hsp : pyClasses.isStrip c with
+    | false => rfl
+    | true => exact absurd ⟨hw, hsp⟩ (inRanges_disjoint _ _ (by decide +kernel) c)
+  space_sp := by decide +kernel
+  space_gt := by decide +kernel
+  strip_nl := by decide +kernel
+  strip_lt := by decide +kernel
+  strip_gt := by decide +kernel
+  strip_quote := by decide +kernel
+  strip_slash := by decide +kernel
+  word_lt := by decide +kernel
+  word_gt := by decide +kernel
+  word_eq := by decide +kernel
+  word_slash := by decide +kernel
+  word_quote := by decide +kernel
+
+/-- **C12_reader (partial: layouts as described above).**  For ANY character classes with the sanity
+    properties, either behaviour of the attribute loop, every plain tree `t` of at most five levels of
+    element nesting and every white space `lead`, `trail` around it:
+    the reader's result on the text of `t` is exactly the dict of the standard reading of that text. -/
+theorem C12_reader_partial (cls : Classes) (hs : Sane cls) (sw : Switches) (t : PTree) (hp : PlainT cls t)
+    (hh : heightT t ≤ 5) (lead trail : List Char) (hl : Ws cls lead) (ht : Ws cls trail) :
+    parse cls sw (lead ++ renderT t ++ trail) = .ok (dictOf t) := by
+  have := parseRec_level hs sw 5 t .nil lead trail hp trivial hl ht hh (by simp [heightF])
+  simp only [levelText, renderF, List.append_nil, storeF] at this
+  unfold parse
+  rw [this]
+  simp [dictOf, storeElement, List.lookup]
+
+/-- the recursion bound is the only size limit: a plain tree of any size and `d` levels loads with
+    `recurse = d` -/
+theorem C12_reader_partial_depth (cls : Classes) (hs : Sane cls) (sw : Switches) (d : Nat) (t : PTree)
+    (hp : PlainT cls t) (hh : heightT t ≤ d) :
+    parse cls sw (renderT t) d = .ok (dictOf t) := by
+  have := parseRec_level hs sw d t .nil [] [] hp trivial (by intro c hc; simp at hc) (by intro c hc; simp at hc)
+    hh (by simp [heightF])
+  simp only [levelText, renderF, List.append_nil, List.nil_append, storeF] at this
+  unfold parse
+  rw [this]
+  simp [dictOf, storeElement, List.lookup]
+
+/-- **Anything preceding the KSR element is ignored**, provided the first `<KSR` of the file is the
+    root element (a prolog or comment that itself contains `<KSR` is outside the property's domain). -/
+theorem C12_reader_ksr (cls : Classes) (hs : Sane cls) (sw : Switches) (t : PTree) (hp : PlainT cls t)
+    (hh : heightT t ≤ 5) (prolog trail : List Char) (ht : Ws cls trail)
+    (hfirst : indexFrom kKSRopen (prolog ++ renderT t ++ trail) 0 = some prolog.length) :
+    parseKsr cls sw (prolog ++ renderT t ++ trail) = .ok (dictOf t) := by
+  unfold parseKsr
+  rw [hfirst]
+  simp only
+  have : (prolog ++ renderT t ++ trail).drop prolog.length = [] ++ renderT t ++ trail := by
+    rw [List.append_assoc, List.drop_left']
+    · simp
+    · rfl
+  rw [this]
+  exact C12_reader_partial cls hs sw t hp hh [] trail (by intro c hc; simp at hc) ht
+
+/-- under the classes of the running Python, for the code in /repo whatever its switch values -/
+theorem C12_reader_py (t : PTree) (hp : PlainT pyClasses t) (hh : heightT t ≤ 5) (lead trail : List Char)
+    (hl : Ws pyClasses lead) (ht : Ws pyClasses trail) :
+    parse pyClasses pySwitches (lead ++ renderT t ++ trail) = .ok (dictOf t) :=
+  C12_reader_partial pyClasses pyClasses_sane pySwitches t hp hh lead trail hl ht
+
+/-
+  The full statement of DESIGN §4 C12, kept visible:
+
+      theorem C12_reader : ∀ (t : PlainXml) (ℓ : Layout), parse (render ℓ t) = dictOf t
+
+  with `ℓ` ranging over: white space between elements, spaces/tabs inside start tags, attribute order,
+  self-closing vs empty-pair form, prolog/comments before `<KSR`.  Proved above (`C12_reader_partial`,
+  `C12_reader_ksr`): every such layout EXCEPT
+    (1) the white space in front of each attribute is exactly one space (several spaces / tabs between
+        attributes are handled by the reader — `\s*` in the attribute expression, the shortest-`ws`
+        rule in the tag expression — and are exercised by harness/corr_C12.py, but `attrsText` does
+        not vary them yet);
+    (2) attribute ORDER: `dictOf` lists the attributes in document order; a Python dict compares
+        without order, so the statement for permuted attributes needs `dictOf` up to permutation of the
+        `attrs` entries (the reader itself is order-agnostic: `parseAttrs_plain` folds `dictSet`);
+    (3) the prolog condition is stated semantically (the first `<KSR` is the root element) rather than
+        as a grammar of XML declarations and comments.
+  Excluded by `PlainT` because the reader really differs there (findings, replayed by the harness):
+  white space before `>` in a start tag WITHOUT attributes (F17: `Gap` demands none), `>` inside an
+  attribute value (F18: `PlainAttr`), an attribute-less self-closing tag `<n/>` (not in the schema).
+  An element may not contain a descendant of its own name (`occursT`): `_find_end_of_element` supports
+  exactly one level of same-name nesting and only when the outer start tag has the other form (with /
+  without attributes) than the inner one — `nested_same_name_witness` below shows both sides.
+-/
+
+/-- the one level of same-name nesting the reader supports (the repo's `test_nested_tags`), and the
+    shape it does not: outer and inner start tag of the same form -/
+theorem nested_same_name_witness (sw : Switches) :
+    parse pyClasses sw "<Signature keyIdentifier=\"Z\"><KeyTag>1</KeyTag><Signature>WL7</Signature></Signature>".toList =
+      .ok [("Signature".toList, .dict [(kAttrs, .dict [("keyIdentifier".toList, .str "Z".toList)]),
+        (kValue, .dict [("KeyTag".toList, .str "1".toList), ("Signature".toList, .str "WL7".toList)])])] ∧
+    parse pyClasses sw "<Signature><Signature>WL7</Signature></Signature>".toList = .err .value := by
+  obtain ⟨a, b⟩ := sw
+  cases a <;> cases b <;> exact ⟨by decide +kernel, by decide +kernel⟩
+
 /-! ## Non-vacuity -/
+
+/-- a small document in the reference clients' layout (indentation, self-closing `RSA`, a repeated
+    element), as a PlainXml tree -/
+def exampleTree : PTree :=
+  .node "KSR".toList [("id".toList, "4fe9bb10".toList), ("domain".toList, ".".toList)] [] "\n  ".toList
+    (.node "Request".toList [] [] "\n    ".toList
+      (.leaf "TTL".toList [] [] "172800".toList)
+      (.cons "\n    ".toList (.empty "RSA".toList [("size".toList, "2048".toList), ("exponent".toList, "65537".toList)] [])
+        (.cons "\n    ".toList (.leaf "Signer".toList [("keyIdentifier".toList, "KC1".toList)] " ".toList [])
+          (.cons "\t".toList (.empty "Signer".toList [("keyIdentifier".toList, "KC2".toList)] " ".toList) .nil)))
+      "\n  ".toList)
+    .nil "\n".toList
+
+example : renderT exampleTree =
+    ("<KSR id=\"4fe9bb10\" domain=\".\">\n  <Request>\n    <TTL>172800</TTL>\n    <RSA size=\"2048\" exponent=\"65537\"/>" ++
+     "\n    <Signer keyIdentifier=\"KC1\" ></Signer>\t<Signer keyIdentifier=\"KC2\" />\n  </Request>\n</KSR>").toList := by
+  decide +kernel
+
+set_option synthInstance.maxSize 4096 in
+set_option synthInstance.maxHeartbeats 400000 in
+theorem exampleTree_plain : PlainT pyClasses exampleTree ∧ heightT exampleTree ≤ 5 := by
+  simp only [exampleTree, PlainT, PlainF, occursT, occursF, PlainName, PlainAttr, PlainText, Gap, Ws, heightT, heightF]
+  decide +kernel
+
+/-- … which the reader therefore reads as its standard reading: `Signer` collected into a list -/
+example : parse pyClasses pySwitches (renderT exampleTree ++ "\n".toList) = .ok (dictOf exampleTree) := by
+  have := C12_reader_py exampleTree exampleTree_plain.1 exampleTree_plain.2 [] "\n".toList
+    (by intro c hc; simp at hc) (by unfold Ws; decide +kernel)
+  simpa using this
 
 example : storeAll [] "Key".toList [s "1", s "2", s "3"] = [("Key".toList, .list [s "1", s "2", s "3"])] := by
   decide
